@@ -1252,6 +1252,11 @@ def tags(case, impl, model):
         m = (model or {}).get("out", model) or {}
         if isinstance(m, dict) and "tsafe" in m:
             out.append("proved-region:" + str(bool(m.get("tsafe") and m.get("plain") and not case.get("mapperSpec"))))
+            if case.get("mapperSpec"):
+                out.append("proved-region-with-mappers:" + str(bool(
+                    m.get("tsafe") and m.get("plainMapped") and m.get("simpleMappers") and not m.get("cascade")
+                    and not m.get("baseChain") and m.get("verdict") in ("flat", "nested")
+                    and "ok" in (m.get("regularMapped") or {}))))
     elif case["mode"] == "fast":
         out.append("created:" + str(impl.get("created")))
         if "fast_inst_err" in impl:
